@@ -355,3 +355,193 @@ Section Sim.
         cbn [arg_nodes fst snd]. fold ps'. fold nd. rewrite <- PE, <- app_assoc. cbn [app].
         rewrite L, PE. f_equal. lia.
   Qed.
+
+  (** ** one item *)
+  Lemma item_sim n : SimN n -> forall i ps o st pos fol k r,
+    isize i <= S n -> Std cx ps -> opts_ok ps o -> r <> OutOfFuel ->
+    ok_item cx ps i (hd_error fol) = true ->
+    skipn pos s = unparse_item i ++ fol ->
+    R k (TCollect ps o (absorb_item cx ps pos st i) (pos + ilen i)) = r ->
+    R (k + 8 * ilen i) (TCollect ps o st pos) = r.
+  Proof.
+    intros IH i ps o st pos fol k r SZ SD OK NR OKI SK H. pose proof (std_view_of cx ps SD) as V.
+    destruct i as [ws cs|ws b tr|ws name post args|ws mk b tr].
+    - (* text *)
+      cbn [ok_item] in OKI. apply andb_true_iff in OKI. destruct OKI as [OKI IN].
+      apply andb_true_iff in OKI. destruct OKI as [W NE]. destruct cs as [|c cs]; [discriminate|].
+      cbn [unparse_item] in SK. rewrite <- app_assoc in SK.
+      unfold ilen in *. cbn [unparse_item absorb_item] in *.
+      apply (text_sim ps o r k st pos ws c cs fol SD OK NR W IN SK H).
+    - (* group *)
+      rewrite ok_item_grp in OKI. apply andb_true_iff in OKI. destruct OKI as [OKI OKB].
+      apply andb_true_iff in OKI. destruct OKI as [W Wt].
+      cbn [isize] in SZ. fold (lsize b) in SZ.
+      assert (SK' : skipn pos s = ws ++ 123%N :: unparse_items b ++ tr ++ 125%N :: fol).
+      { unfold unparse_items. cbn [unparse_item] in SK. rewrite <- !app_assoc in SK. cbn [app] in SK.
+        rewrite <- !app_assoc in SK. exact SK. }
+      assert (T : impl_peek ps s pos
+                  = TokOk (mk TkBraceOpen [123%N] (pos + length ws) (S (pos + length ws)) ws [])).
+      { rewrite (impl_peek_dispatch ps s pos ws 123%N _ W SK' space_123). apply (dispatch_open cx ps V). }
+      pose proof (skipn_shift _ _ _ _ SK') as SK0.
+      pose proof (grp_run n IH ps (pos + length ws) ws b tr fol SD ltac:(lia) Wt OKB SK0) as G.
+      cbn [absorb_item item_ws] in H.
+      set (N0 := k + 3 + 8 * length (unparse_items b)).
+      apply (lift (S N0)); [|exact NR|rewrite ilen_grp; unfold N0; lia].
+      eapply (rule_group s cx N0 ps o st pos ws _ _ r OK T).
+      + apply (lift _ N0) in G; [exact G|discriminate|unfold N0; lia].
+      + apply (lift _ N0) in H; [|exact NR|unfold N0; lia].
+        rewrite ilen_grp in H.
+        replace (pos + length ws + 1 + length (unparse_items b) + length tr + 1)
+          with (pos + (length ws + 1 + length (unparse_items b) + length tr + 1)) by lia. exact H.
+    - (* macro *)
+      destruct (get_macro_spec cx name) as [sp|] eqn:GS;
+        [|cbn [ok_item] in OKI; rewrite GS, andb_false_r in OKI; discriminate].
+      destruct (sp_args sp) as [l|lk] eqn:SA;
+        [|cbn [ok_item] in OKI; rewrite GS, SA, andb_false_r in OKI; discriminate].
+      rewrite (ok_item_mac cx ps ws name post args _ sp l GS SA) in OKI.
+      apply andb_true_iff in OKI. destruct OKI as [OKI OKA].
+      apply andb_true_iff in OKA. destruct OKA as [OKA FO].
+      apply andb_true_iff in OKI. destruct OKI as [OKI NM].
+      apply andb_true_iff in OKI. destruct OKI as [W Wp].
+      rewrite hd_error_ostr in FO.
+      cbn [isize] in SZ. fold (lsize args) in SZ.
+      set (p0 := pos + length ws).
+      set (pe := p0 + 1 + length name + length post).
+      assert (SK' : skipn pos s = ws ++ 92%N :: name ++ post ++ unparse_items args ++ fol).
+      { unfold unparse_items. cbn [unparse_item] in SK. rewrite <- !app_assoc in SK. cbn [app] in SK.
+        rewrite <- !app_assoc in SK. exact SK. }
+      pose proof (skipn_shift _ _ _ _ SK') as SK0. fold p0 in SK0.
+      assert (T : impl_peek ps s pos = TokOk (mk TkMacro name p0 pe ws post)).
+      { destruct name as [|c nm]; [discriminate|]. cbn [name_ok] in NM. cbn [mac_follow_ok] in FO.
+        cbn [app] in SK', SK0.
+        rewrite (impl_peek_dispatch ps s pos ws 92%N _ W SK' space_92). fold p0.
+        destruct (is_alpha c) eqn:AC.
+        - apply andb_true_iff in NM. destruct NM as [NM NE]. apply andb_true_iff in NM. destruct NM as [NA NB].
+          apply negb_true_iff in NE. apply negb_true_iff in NB.
+          apply andb_true_iff in FO. destruct FO as [F1 F2]. apply negb_true_iff in F1.
+          rewrite (dispatch_macro_word cx ps V s p0 ws c nm post (unparse_items args ++ fol) SK0 AC NA Wp
+                     (otest_hd_not _ _ F1)); [| |exact NB|exact NE].
+          + unfold pe. cbn [length]. f_equal. f_equal. lia.
+          + intros ->. apply negb_true_iff in F2. apply otest_hd_not. exact F2.
+        - destruct nm; [|discriminate]. destruct post; [|discriminate].
+          apply negb_true_iff in NM. cbn [mem_c existsb] in NM.
+          repeat (apply orb_false_iff in NM; destruct NM as [? NM]).
+          cbn [app] in SK0 |- *.
+          rewrite (dispatch_macro_sym cx ps V s p0 ws c _ SK0 AC) by assumption.
+          unfold pe. cbn [length]. f_equal. f_equal. lia. }
+      assert (SKa : skipn pe s = unparse_items args ++ fol).
+      { change (92%N :: name ++ post ++ unparse_items args ++ fol)
+          with ([92%N] ++ name ++ post ++ unparse_items args ++ fol) in SK0.
+        apply skipn_shift in SK0. apply skipn_shift in SK0. apply skipn_shift in SK0.
+        cbn [length] in SK0. exact SK0. }
+      pose proof (args_run n IH args l ps [] pe fol SD ltac:(lia) OKA SKa) as A. cbn [app] in A.
+      pose proof (rule_tcall s cx _ ps name p0 pe post sp l _ _ SA A) as C.
+      cbn [absorb_item item_ws] in H. fold p0 in H.
+      rewrite (node_of_mac cx ps p0 ws name post args sp l GS SA) in H. cbn zeta in H. fold pe in H.
+      rewrite (arg_nodes_pos cx ps args pe l (ok_args_length ps args l OKA)) in H.
+      set (N0 := k + 2 + 8 * length (unparse_items args)).
+      assert (NL : 1 <= length name) by (destruct name; [discriminate|cbn; lia]).
+      apply (lift (S N0)); [|exact NR|rewrite ilen_mac; unfold N0; lia].
+      eapply (rule_macro s cx N0 ps o st pos ws name pe post sp _ _ r OK GS T).
+      + apply (lift _ N0) in C; [exact C|discriminate|unfold N0; lia].
+      + apply (lift _ N0) in H; [|exact NR|unfold N0; lia].
+        rewrite ilen_mac in H.
+        replace (pos + (length ws + 1 + length name + length post + length (unparse_items args)))
+          with (pe + length (unparse_items args)) in H by (unfold pe, p0; lia). exact H.
+    - (* math *)
+      rewrite ok_item_math in OKI. apply andb_true_iff in OKI. destruct OKI as [OKI DL].
+      apply andb_true_iff in OKI. destruct OKI as [OKI OKB].
+      apply andb_true_iff in OKI. destruct OKI as [OKI Wt].
+      apply andb_true_iff in OKI. destruct OKI as [M W]. apply negb_true_iff in M.
+      cbn [isize] in SZ. fold (lsize b) in SZ.
+      assert (SK' : skipn pos s = ws ++ m_open mk ++ unparse_items b ++ tr ++ m_close mk ++ fol).
+      { unfold unparse_items. cbn [unparse_item] in SK. rewrite <- !app_assoc in SK. exact SK. }
+      pose proof (skipn_shift _ _ _ _ SK') as SK0.
+      assert (DL' : mk = MDollar -> hd_not (fun c => N.eqb c 36) (unparse_items b ++ tr ++ m_close mk ++ fol)).
+      { intros ->. rewrite app_assoc. destruct (unparse_items b ++ tr) as [|c x]; [discriminate|].
+        cbn [app hd_not]. apply negb_true_iff in DL. exact DL. }
+      assert (T : impl_peek ps s pos
+                  = TokOk (PLV.Tok.Tokenizer.mk (m_tok mk) (m_open mk) (pos + length ws)
+                              (pos + length ws + length (m_open mk)) ws [])).
+      { pose proof (dispatch_math_open cx ps V s (pos + length ws) ws mk _ M DL') as D.
+        destruct mk; cbn [m_open app] in SK'.
+        - rewrite (impl_peek_dispatch ps s pos ws 36%N _ W SK' space_36). exact D.
+        - rewrite (impl_peek_dispatch ps s pos ws 92%N _ W SK' space_92). exact D.
+        - rewrite (impl_peek_dispatch ps s pos ws 92%N _ W SK' space_92). exact D. }
+      pose proof (math_run n IH ps (pos + length ws) ws mk b tr fol SD M ltac:(lia) Wt OKB DL' SK0) as G.
+      rewrite node_of_math in G. cbn zeta in G.
+      cbn [absorb_item item_ws] in H. rewrite node_of_math in H. cbn zeta in H.
+      set (N0 := k + 3 + 8 * length (unparse_items b)).
+      apply (lift (S N0)); [|exact NR|rewrite ilen_math; unfold N0; destruct mk; cbn [m_open length]; lia].
+      eapply (rule_math s cx N0 ps o st pos ws mk _ _ r OK (proj1 SD) M T).
+      + apply (lift _ N0) in G; [exact G|discriminate|unfold N0; lia].
+      + apply (lift _ N0) in H; [|exact NR|unfold N0; lia].
+        rewrite ilen_math in H.
+        replace (pos + length ws + length (m_open mk) + length (unparse_items b) + length tr + length (m_close mk))
+          with (pos + (length ws + length (m_open mk) + length (unparse_items b) + length tr + length (m_close mk)))
+          by lia. exact H.
+  Qed.
+
+  (** ** the simulation *)
+  Theorem items_sim : forall n, SimN n.
+  Proof.
+    assert (NIL : forall ps o st pos k r,
+              R k (TCollect ps o (fst (absorb cx ps pos st [])) (pos + length (unparse_items []))) = r ->
+              R (k + 8 * length (unparse_items [])) (TCollect ps o st pos) = r).
+    { intros ps o st pos k r H. cbn in H |- *. rewrite Nat.add_0_r in H |- *. exact H. }
+    induction n as [|n IH]; intros l SZ ps o st pos fol k r SD OK NR OKL SK H.
+    - destruct l as [|i l]; [apply NIL; exact H|]. rewrite lsize_cons in SZ. pose proof (isize_pos i). lia.
+    - destruct l as [|i l]; [apply NIL; exact H|]. rewrite lsize_cons in SZ. pose proof (isize_pos i) as IP.
+      rewrite ok_items_cons in OKL. apply andb_true_iff in OKL. destruct OKL as [OKI OKL].
+      rewrite hd_error_ostr in OKI.
+      assert (L : length (unparse_items (i :: l)) = ilen i + length (unparse_items l)).
+      { unfold unparse_items, ilen. cbn [flat_map]. rewrite app_length. reflexivity. }
+      assert (SK' : skipn pos s = unparse_item i ++ unparse_items l ++ fol).
+      { unfold unparse_items in *. cbn [flat_map] in SK. rewrite <- app_assoc in SK. exact SK. }
+      pose proof (skipn_shift _ _ _ _ SK') as SKl. fold (ilen i) in SKl.
+      rewrite absorb_cons in H. rewrite L in H |- *.
+      replace (pos + (ilen i + length (unparse_items l))) with (pos + ilen i + length (unparse_items l)) in H by lia.
+      pose proof (IH l ltac:(lia) ps o (absorb_item cx ps pos st i) (pos + ilen i) fol k r SD OK NR OKL SKl H) as H2.
+      pose proof (item_sim n IH i ps o st pos (unparse_items l ++ fol) _ r ltac:(lia) SD OK NR OKI SK' H2) as H3.
+      apply (lift _ _ _ _ H3 NR). lia.
+  Qed.
+End Sim.
+
+(** * The round-trip theorem *)
+Theorem parse_unparse : forall cx d,
+  ok_doc cx d = true ->
+  parse_top (unparse d) false cx (walker_state cx) = doc_result cx d.
+Proof.
+  intros cx [items tr] OKD. unfold ok_doc, ok_doc_in in OKD. cbn [d_items d_trail] in OKD.
+  apply andb_true_iff in OKD. destruct OKD as [OKL W].
+  set (s := unparse {| d_items := items; d_trail := tr |}).
+  set (ps := walker_state cx).
+  assert (SD : Std cx ps) by apply std_walker.
+  assert (SK : skipn 0 s = unparse_items items ++ tr) by reflexivity.
+  set (A := absorb cx ps 0 cs_empty items).
+  set (pe := 0 + length (unparse_items items)).
+  assert (SKe : skipn pe s = tr) by (apply skipn_shift in SK; exact SK).
+  assert (E : run s false cx 2 (TCollect ps top_opts (fst A) pe)
+              = Ok (OColl (eos_state ps (fst A) tr pe) None false true) (pe + length tr)).
+  { destruct tr as [|c w].
+    - cbn [eos_state length]. rewrite Nat.add_0_r.
+      apply (rule_eos s cx 1 ps top_opts (fst A) pe (opts_ok_top ps)).
+      apply impl_peek_eos; [reflexivity | exact SKe].
+    - cbn [eos_state].
+      apply (rule_eos_ws s cx 1 ps top_opts (fst A) pe c w _ (impl_peek_eos ps s pe (c :: w) W SKe)).
+      apply (rule_eos s cx 0 ps top_opts _ _ (opts_ok_top ps)).
+      apply impl_peek_eos; [reflexivity|].
+      assert (SKe' : skipn pe s = (c :: w) ++ []) by (rewrite app_nil_r; exact SKe).
+      apply skipn_shift in SKe'. exact SKe'. }
+  assert (NR : Ok (OColl (eos_state ps (fst A) tr pe) None false true) (pe + length tr) <> OutOfFuel)
+    by discriminate.
+  pose proof (items_sim s cx (lsize items) items (le_n _) ps top_opts cs_empty 0 tr 2 _ SD (opts_ok_top ps)
+                NR OKL SK E) as S1.
+  pose proof (rule_general_top s cx _ ps _ _ S1) as S2.
+  assert (LS : length s = length (unparse_items items) + length tr) by (unfold s, unparse; apply app_length).
+  unfold parse_top. fold s ps.
+  rewrite (run_mono s false cx _ (parse_fuel s) _ _ S2 ltac:(discriminate)) by (unfold parse_fuel; lia).
+  unfold doc_result, tree_of. cbn [parse_content d_items d_trail fst snd]. fold ps. fold A.
+  assert (PA : snd A = pe) by (unfold A; rewrite absorb_pos; reflexivity). rewrite PA.
+  fold s. rewrite LS. reflexivity.
+Qed.
